@@ -362,6 +362,12 @@ PROPS = {
             'NetworkResourceService.on_create_request/on_delete_request/synchronize are not under contract',
         ],
     },
+    'C16': {
+        'contract_modules': ['c16_network'],
+        'functions': ['treadmill.runtime.linux._finish:_cleanup_ephemeral_ports',
+                      'treadmill.runtime.linux._finish:_cleanup_network'],
+        'assumptions': [],
+    },
     'C17': {
         'contract_modules': ['c17_presence'],
         'functions': ['treadmill.services.presence_service:PresenceResourceService._safe_create',
